@@ -130,6 +130,13 @@ class Interp:
             if r:
                 self.oblige(kind, fr, node, what, self.path_goal(st), True, r)
                 return
+        if what.startswith("debug_assert"):
+            # the library stating the contract of user-supplied code (DESIGN §4.5)
+            for (a, b, origin) in st.tne:
+                if user_origin(a) or user_origin(b):
+                    self.assumptions["A_O"] = self.assumptions.get("A_O", 0) + 1
+                    self.oblige(kind, fr, node, what, self.path_goal(st), True, "assumption:A_O", status="assumed")
+                    return
         for (key, pol) in st.unk:
             if key[0] == "user-contract":
                 self.assumptions[key[1]] = self.assumptions.get(key[1], 0) + 1
